@@ -115,8 +115,70 @@ func conflictSkipsBlame(in modInput, cf gen.Conflict) bool {
 	return false
 }
 
-// c07Check: success iff conflict-free; exact attributed union on success; blame on failure.
+// renamedFiles returns the same file set with every file moved to another name (contents untouched); the generator's
+// description (expected attribution, blamed files) is renamed with it.
+func renamedFiles(in modInput, f func(string) string) modInput {
+	out := modInput{Schema: in.Schema}
+	for _, x := range in.Files {
+		x.Name = f(x.Name)
+		out.Files = append(out.Files, x)
+	}
+	for _, c := range in.Conflicts {
+		c2 := c
+		c2.Files = nil
+		for _, n := range c.Files {
+			c2.Files = append(c2.Files, f(n))
+		}
+		if c.Lines != nil {
+			c2.Lines = map[string][]int{}
+			for n, l := range c.Lines {
+				c2.Lines[f(n)] = l
+			}
+		}
+		out.Conflicts = append(out.Conflicts, c2)
+	}
+	if in.Expected != nil {
+		e := in.Expected.Clone()
+		for i := range e.Types {
+			if e.Types[i].File != "" {
+				e.Types[i].File = f(e.Types[i].File)
+			}
+			for j := range e.Types[i].Rels {
+				if e.Types[i].Rels[j].File != "" {
+					e.Types[i].Rels[j].File = f(e.Types[i].Rels[j].File)
+				}
+			}
+		}
+		for i := range e.Conds {
+			if e.Conds[i].File != "" {
+				e.Conds[i].File = f(e.Conds[i].File)
+			}
+		}
+		out.Expected = e
+	}
+	return out
+}
+
+// c07Check: the file set as generated, then the same contents under other file names (the outcome is a function of
+// the names and contents handed in by THIS call: attribution and blame follow the new names), then the original once more.
 func c07Check(in modInput) string {
+	if msg := c07CheckOnce(in); msg != "" {
+		return msg
+	}
+	moved := renamedFiles(in, func(n string) string { return "moved/" + n })
+	if msg := c07CheckOnce(moved); msg != "" {
+		return "same contents under other file names (directly after merging them under the original names): " + msg
+	}
+	if len(in.Files) <= 6 {
+		if msg := c07CheckOnce(in); msg != "" {
+			return "original file names again, after the same contents were merged under other names: " + msg
+		}
+	}
+	return ""
+}
+
+// c07CheckOnce: success iff conflict-free; exact attributed union on success; blame on failure.
+func c07CheckOnce(in modInput) string {
 	files := in.moduleFiles()
 	texts := make([]string, len(files))
 	for i, f := range files {
@@ -321,7 +383,7 @@ func TestC07(t *testing.T) {
 		rec.Require("conflict:"+k, 0.02)
 	}
 	rapid.Check(t, func(rt *rapid.T) {
-		ms := gen.Modules(rt, gen.ModOpts{MaxConflicts: 2, Layout: true, CaseNames: true, Twice: true, EmptySelfExt: true, GlueNames: true, BigExt: true})
+		ms := gen.Modules(rt, gen.ModOpts{MaxConflicts: 2, Layout: true, CaseNames: true, Twice: true, EmptySelfExt: true, GlueNames: true, BigExt: true, Scale: true})
 		in := modInputOf(ms)
 		cls, _, nt := modClasses(ms)
 		var sample any
@@ -426,7 +488,7 @@ func TestC12(t *testing.T) {
 	rec.Require("set:two-or-more-extending-files", 0.5)
 	rec.Require("set:two-or-more-conflicts", 0.15)
 	rapid.Check(t, func(rt *rapid.T) {
-		ms := gen.Modules(rt, gen.ModOpts{MaxConflicts: 3, MinExtFiles: 2, MaxFiles: 5, MultiDup: true, CaseNames: true, Layout: true, BigExt: true})
+		ms := gen.Modules(rt, gen.ModOpts{MaxConflicts: 3, MinExtFiles: 2, MaxFiles: 5, MultiDup: true, CaseNames: true, Layout: true, BigExt: true, Scale: true})
 		in := modInputOf(ms)
 		idx := make([]int, len(in.Files))
 		for i := range idx {
@@ -580,7 +642,7 @@ func c16MergeCheck(in modInput) string {
 
 func c16Merge(t *testing.T, rec *ev.Rec) {
 	rapid.Check(t, func(rt *rapid.T) {
-		ms := gen.Modules(rt, gen.ModOpts{MaxConflicts: 1, Decoys: true, MaxFiles: 4, Layout: true, CaseNames: true,
+		ms := gen.Modules(rt, gen.ModOpts{MaxConflicts: 1, Decoys: true, MaxFiles: 4, Layout: true, CaseNames: true, Scale: true, ScaleNoBroken: true,
 			OnlyKinds: []string{"duplicate-type-across", "duplicate-type-within", "duplicate-condition", "extend-missing-type", "relation-clash-base", "relation-clash-extensions"}})
 		in := modInputOf(ms)
 		cls := []string{"merge:case"}
